@@ -279,6 +279,52 @@ static void recursive_tasks()
     pmc_outcome("try_failed=%d", s.try_failed);
 }
 
+// recursive mutex: "counted re-entrantly" at the boundaries of the counter's possible representations: the owner
+// nests N levels (N around 2^8, 2^16 and 2^32 is not executable; 2^8 and 2^16 are), releases all but one and the other
+// task's try_lock must fail; after the last unlock it must succeed.  No scheduling choices: a boundary-input enumeration.
+template <typename RM>
+static void recursive_deep()
+{
+    static const long depths[] = {1, 2, 3, 127, 128, 129, 255, 256, 257, 32767, 32768, 65535, 65536, 65537, 131071, 131072, 131073};
+    long N = depths[pmc_choose(sizeof depths / sizeof depths[0], 0)];
+    int partial = pmc_choose(2, 0);    // 0: unlock N-1 levels before the probe, 1: unlock exactly one level before the probe
+    Shared s;
+    RM m;
+    pmc_watch(&m, sizeof m, "recursive_mutex");
+    static int phase, probe_result[2];
+    phase = 0;
+    probe_result[0] = probe_result[1] = -1;
+    rt::start();
+    rt::spawn([&, N, partial] {
+        rt::watch_self("task0");
+        for (long i = 0; i < N; ++i) { if (i & 1) { PMC_ASSERT(m.try_lock(), "recursive-try", "owner's try_lock failed at depth %ld", i); } else m.lock(); }
+        long rel = N == 1 ? 0 : partial ? 1 : N - 1;
+        for (long i = 0; i < rel; ++i) m.unlock();
+        phase = 1;    // still held (N - rel >= 1 levels)
+        while (phase != 2) pika::this_thread::suspend(pika::threads::detail::thread_schedule_state::pending, "C06 deep owner");
+        for (long i = 0; i < N - rel; ++i) m.unlock();
+        phase = 3;
+        ++s.finished;
+    });
+    rt::spawn([&, N] {
+        rt::watch_self("task1");
+        while (phase != 1) pika::this_thread::suspend(pika::threads::detail::thread_schedule_state::pending, "C06 deep prober");
+        bool got = m.try_lock();
+        probe_result[0] = got;
+        PMC_ASSERT(!got, "mutual-exclusion", "recursive mutex locked %ld times by its owner and not yet fully unlocked: another task's try_lock succeeded", N);
+        phase = 2;
+        while (phase != 3) pika::this_thread::suspend(pika::threads::detail::thread_schedule_state::pending, "C06 deep prober");
+        got = m.try_lock();
+        probe_result[1] = got;
+        PMC_ASSERT(got, "unlock-lost", "recursive mutex locked %ld times and unlocked %ld times is still not available", N, N);
+        m.unlock();
+        ++s.finished;
+    });
+    rt::stop();
+    PMC_ASSERT(s.finished == 2, "task-lost", "%d of 2 tasks finished", s.finished);
+    pmc_outcome("depth=%ld partial=%d", N, partial);
+}
+
 // misuse the API promises to detect
 static void misuse()
 {
@@ -382,6 +428,8 @@ int main(int argc, char** argv)
         {"timed_mutex_three", timed_mutex_three, 1, 2, 0.1, 0.1, 1, "F-addr: timed_mutex + task state words; owner, timed waiter in front, lock() waiter behind; the timed waiter resumes after its deadline", nullptr, nullptr},
         {"timed_mutex_pair", timed_mutex_pair<0>, 1, 2, 0.1, 0.1, 1, "F-addr: timed_mutex + both tasks' thread_data; early-timeout deviation = clock jump to B's deadline", nullptr, nullptr},
         {"recursive_mutex_2", recursive_tasks<pika::detail::recursive_mutex_impl<pika::mutex>, 2>, 1, 2, 0.1, 0.1, 1, "F-addr: recursive_mutex_impl<pika::mutex> + thread_data", nullptr, nullptr},
+        {"recursive_deep", recursive_deep<pika::detail::recursive_mutex_impl<>>, 0, 0, 0.03, 0.02, 0, "nesting depths at the boundaries of 8/16-bit counters (input enumeration, default schedule)", nullptr, nullptr},
+        {"recursive_deep_mutex", recursive_deep<pika::detail::recursive_mutex_impl<pika::mutex>>, 0, 0, 0.03, 0.02, 0, "the same with pika::mutex as the inner lock", nullptr, nullptr},
         {"recursive_spin_2", recursive_tasks<pika::detail::recursive_mutex_impl<>, 2>, 2, 3, 0.3, 0.1, 1, "F-addr: recursive_mutex (recursion_count, locking_context, inner mutex) + thread_data", nullptr, nullptr},
         {"spinlock_2x1", mutex_tasks<pika::concurrency::detail::spinlock, 2, 1, 3>, 1, 3, 0.05, 0.05, 1, "F-addr: concurrency::detail::spinlock + thread_data", nullptr, nullptr},
         {"spinlock_os_3x1", spin_os<pika::concurrency::detail::spinlock, 3, 1>, 4, 5, 0.05, 0.05, 1, "F-addr: concurrency::detail::spinlock; 3 OS threads", nullptr, nullptr},
